@@ -384,8 +384,19 @@ def _check_inner(cat, d, CompaSOHaloCatalog):
     if others:
         seq = list(others)
         seq.insert(d['pos'], target)
+        asked = list(seq)
         c = _load(cat, d, CompaSOHaloCatalog, seq, None)
-        compare(c, 'with %r' % (seq,))
+        compare(c, 'with %r' % (asked,))
+        # history: the caller keeps its request in a list and uses the same list object again. The second load must hand out the
+        # same columns with the same values (a reader that edits the caller's list in place breaks this)
+        c2 = _load(cat, d, CompaSOHaloCatalog, seq, None)
+        for name in c.halos.colnames:
+            if name not in c2.halos.colnames:
+                raise Violation('second-load-from-same-list-differs', 'fields list object %r passed twice: column %r present after the first load, absent after the second (list is now %r)' % (asked, name, seq))
+            if not _same(np.asarray(c.halos[name]), np.asarray(c2.halos[name])):
+                raise Violation('second-load-from-same-list-differs', 'fields list object %r passed twice: column %r differs between the two loads' % (asked, name))
+        if list(c2.halos.colnames) != list(c.halos.colnames):
+            raise Violation('second-load-from-same-list-differs', 'fields list object %r passed twice: columns %r then %r' % (asked, c.halos.colnames, c2.halos.colnames))
     for m in d['modes']:
         if m == 'all':
             c = _load(cat, d, CompaSOHaloCatalog, 'all', None)
